@@ -197,37 +197,43 @@ def writeWithPoint (total : Nat) : List (List Nat) → Nat → Bool → List Nat
       let (o, w, p) := writeDecimalDigits d total written
       o ++ writeWithPoint total rest w p
 
+/-- the finite arm of `decimal_to_fmt` after the sign: layout chosen from the unbiased exponent, the most
+    significant digit (ASCII) and the trailing declets (each three ASCII digits, most significant first) -/
+def fmtFinite (T : Ty) (precision : Nat) (msdAscii : Nat) (declets : List (List Nat)) (exponent : Int) : List Nat :=
+  let inI32 : Bool := T.expIsI32 || (decide (i32Min ≤ exponent) && decide (exponent ≤ i32Max))
+  if exponent = 0 then
+    let (lz, rest) := skipLeadingZeroes msdAscii declets
+    writeAllAsInteger lz rest 0
+  else if exponent < 0 ∧ inI32 = true then
+    let (lz, rest) := skipLeadingZeroes msdAscii declets
+    let nonZero : Int := ((precision + 2 : Nat) : Int) - lz.skipped
+    let integerDigits := nonZero + exponent
+    if integerDigits > 0 then
+      let groups := (match lz.partialDeclet with | some d => [d] | none => []) ++ rest
+      writeWithPoint integerDigits.toNat groups 0 false
+    else
+      let leadingZeroes := integerDigits.natAbs
+      if leadingZeroes + 2 ≤ 7 ∧ 1 + leadingZeroes + nonZero.toNat ≤ precision then
+        [48, 46] ++ List.replicate leadingZeroes 48 ++ writeAllAsInteger lz rest leadingZeroes
+      else writeAllAsScientific T lz rest exponent
+  else
+    let (lz, rest) := skipLeadingZeroes msdAscii declets
+    writeAllAsScientific T lz rest exponent
+
+/-- the NaN arm after the sign: keyword and, if non-zero, the payload in brackets -/
+def fmtNan (quiet : Bool) (declets : List (List Nat)) : List Nat :=
+  let word := if quiet then [110, 97, 110] else [115, 110, 97, 110]
+  let payload := declets.flatten.dropWhile (· == 48)
+  word ++ (if payload.isEmpty then [] else [40] ++ payload ++ [41])
+
+/-- `decimal_to_fmt` -/
 def toText (T : Ty) (b : Buf) : List Nat :=
   let sign := if isSignNegative b then [45] else []
   if isFinite b then
     let (exponent, msd) := unbiasedExponent b
-    let msdAscii := msd + 48
-    let declets := decodeDeclets b
-    let inI32 : Bool := T.expIsI32 || (decide (i32Min ≤ exponent) && decide (exponent ≤ i32Max))
-    sign ++
-    (if exponent = 0 then
-      let (lz, rest) := skipLeadingZeroes msdAscii declets
-      writeAllAsInteger lz rest 0
-    else if exponent < 0 ∧ inI32 = true then
-      let (lz, rest) := skipLeadingZeroes msdAscii declets
-      let nonZero : Int := ((b.precision + 2 : Nat) : Int) - lz.skipped
-      let integerDigits := nonZero + exponent
-      if integerDigits > 0 then
-        let groups := (match lz.partialDeclet with | some d => [d] | none => []) ++ rest
-        writeWithPoint integerDigits.toNat groups 0 false
-      else
-        let leadingZeroes := integerDigits.natAbs
-        if leadingZeroes + 2 ≤ 7 ∧ 1 + leadingZeroes + nonZero.toNat ≤ b.precision then
-          [48, 46] ++ List.replicate leadingZeroes 48 ++ writeAllAsInteger lz rest leadingZeroes
-        else writeAllAsScientific T lz rest exponent
-    else
-      let (lz, rest) := skipLeadingZeroes msdAscii declets
-      writeAllAsScientific T lz rest exponent)
+    sign ++ fmtFinite T b.precision (msd + 48) (decodeDeclets b) exponent
   else if isInfinite b then sign ++ [105, 110, 102]
-  else
-    let word := if isQuietNan b then [110, 97, 110] else [115, 110, 97, 110]
-    let payload := (decodeDeclets b).flatten.dropWhile (· == 48)
-    sign ++ word ++ (if payload.isEmpty then [] else [40] ++ payload ++ [41])
+  else sign ++ fmtNan (isQuietNan b) (decodeDeclets b)
 
 /-! ## Integers (`from_int.rs`, `num.rs`) -/
 
@@ -255,14 +261,12 @@ def intPushZeros (I : Spec.IntTy) (neg : Bool) : Nat → Int → Option Int
 
 def allDigits (b : Buf) (msd : Nat) : List Nat := (msd + 48) :: (decodeDeclets b).flatten
 
-/-- `decimal_to_int` -/
-def toInt (T : Ty) (b : Buf) (I : Spec.IntTy) : Option Int :=
-  let (exponent, msd) := unbiasedExponent b
-  let neg := isSignNegative b
-  let digits := allDigits b msd
-  let inI32 := T.expIsI32 || (i32Min ≤ exponent && exponent ≤ i32Max)
+/-- `decimal_to_int` on the decoded parts: sign, all `precision` digits (ASCII, most significant first),
+    unbiased exponent, and whether the decimal is finite -/
+def toIntCore (T : Ty) (I : Spec.IntTy) (neg : Bool) (digits : List Nat) (exponent : Int) (precision : Nat) (fin : Bool) : Option Int :=
+  let inI32 := T.expIsI32 || (decide (i32Min ≤ exponent) && decide (exponent ≤ i32Max))
   if neg && !I.signed then
-    -- unsigned targets refuse a negative sign before looking at any digit; a non-integer is refused either way
+    -- unsigned targets refuse a negative sign before looking at any digit, in every arm
     none
   else if inI32 && exponent = 0 then intFromAscii I neg digits 0
   else if inI32 && exponent > 0 then
@@ -270,13 +274,17 @@ def toInt (T : Ty) (b : Buf) (I : Spec.IntTy) : Option Int :=
     match intFromAscii I neg digits 0 with
     | some acc => intPushZeros I neg exponent.toNat acc
     | none => none
-  else if inI32 && exponent.natAbs < b.precision then
-    let k := b.precision - exponent.natAbs
+  else if inI32 && exponent.natAbs < precision then
+    let k := precision - exponent.natAbs
     match intFromAscii I neg (digits.take k) 0 with
     | none => none
     | some i => if (digits.drop k).all (· == 48) then some i else none
   else
-    if isFinite b && digits.all (· == 48) then intFromAscii I neg [48] 0 else none
+    if fin && digits.all (· == 48) then intFromAscii I neg [48] 0 else none
+
+def toInt (T : Ty) (b : Buf) (I : Spec.IntTy) : Option Int :=
+  let (exponent, msd) := unbiasedExponent b
+  toIntCore T I (isSignNegative b) (allDigits b msd) exponent b.precision (isFinite b)
 
 /-- which conversions are offered as infallible (`i2d!` / `f2d!` / `d2f!`): an error there is a panic -/
 def _root_.Decstr.Spec.Ty.intInfallible (T : Ty) (I : Spec.IntTy) : Bool :=
@@ -348,23 +356,30 @@ def quietNanBits (B : Spec.BinFmt) : Nat := B.infBits + 2 ^ (B.prec - 2)
 /-- `F32_NAN_PAYLOAD_MASK` has 23 bits (it includes the quiet bit), `F64_NAN_PAYLOAD_MASK` has 51 -/
 def nanPayloadMask (B : Spec.BinFmt) : Nat := if B.prec = 24 then 2 ^ 23 - 1 else 2 ^ 51 - 1
 
-/-- `decimal_to_binary_float`: `Res`-like answer as bits -/
+/-- the finite arm of `decimal_to_binary_float`: re-serialise, parse, refuse infinities -/
+def toFloatFinite (B : Spec.BinFmt) (neg : Bool) (digits : List Nat) (exponent : Int) : Option Nat :=
+  match floatText neg digits exponent with
+  | none => none
+  | some text =>
+    match parseFloatBits B text with
+    | some bits => if B.isInf bits || B.isNan bits then none else some bits
+    | none => none
+
+/-- the NaN arm: quiet NaN carrying as much of the payload as fits, with the decimal's sign -/
+def toFloatNan (B : Spec.BinFmt) (neg : Bool) (payloadDigits : List Nat) : Nat :=
+  let I : Spec.IntTy := ⟨true, B.width⟩
+  let payload := (intFromAscii I false payloadDigits 0).getD 0
+  let bits := if payload = 0 then quietNanBits B else quietNanBits B ||| (payload.toNat % 2 ^ B.width &&& nanPayloadMask B)
+  (if neg then B.signMask else 0) + bits
+
+/-- `decimal_to_binary_float`: `none` = `Err` -/
 def toFloat (b : Buf) (B : Spec.BinFmt) : Option Nat :=
   let neg := isSignNegative b
   if isFinite b then
     let (exponent, msd) := unbiasedExponent b
-    match floatText neg (allDigits b msd) exponent with
-    | none => none
-    | some text =>
-      match parseFloatBits B text with
-      | some bits => if B.isInf bits || B.isNan bits then none else some bits
-      | none => none
+    toFloatFinite B neg (allDigits b msd) exponent
   else if isInfinite b then some ((if neg then B.signMask else 0) + B.infBits)
-  else
-    let I : Spec.IntTy := ⟨true, B.width⟩
-    let payload := (intFromAscii I false (decodeDeclets b).flatten 0).getD 0
-    let bits := if payload = 0 then quietNanBits B else quietNanBits B ||| (payload.toNat % 2 ^ B.width &&& nanPayloadMask B)
-    some ((if neg then B.signMask else 0) + bits)
+  else some (toFloatNan B neg (decodeDeclets b).flatten)
 
 /-- `T::from_f32/from_f64`; `ryu` is the text `ryu::Buffer::format_finite` returned for a finite float -/
 def fromFloat (T : Ty) (B : Spec.BinFmt) (bits : Nat) (ryu : List Nat) : Res :=
